@@ -24,7 +24,7 @@ ASSUMPTIONS = [
     "constant_multiplier without register_multiplier has no operand with the same present components: it must match nothing (rejecting the rule is accepted)",
     "segment-prefixed and *-operands are outside the statement",
 ]
-FLOORS = {"route=real": 0.3, "route=rendered": 0.3, "cand=same": 0.5, "cand=disp-changed": 0.3, "cand=base-changed": 0.3, "cand=scale-changed": 0.1, "cand=index-changed": 0.1}
+FLOORS = {"form=addr16": 0.06, "route=real": 0.3, "route=rendered": 0.3, "cand=same": 0.45, "cand=disp-changed": 0.3, "cand=base-changed": 0.3, "cand=scale-changed": 0.1, "cand=index-changed": 0.1}
 REGS = list(range(16))
 
 
@@ -123,8 +123,49 @@ def cases(draw):
     return {"route": route, "addr32": addr32, "fields": fields, "pos": pos, "cands": cands}
 
 
+@st.composite
+def addr16_cases(draw):
+    """16-bit addressing: objdump prints two-component references k(%bx,%si) - an index without a scale.  The rule has
+    register_multiplier but no constant_multiplier; candidates are the same operand, other register pairs, other / no / added
+    displacements, and the three-component spelling with a scale."""
+    b16, i16 = ["%bx", "%bp"], ["%si", "%di"]
+    a, b = draw(st.sampled_from(b16)), draw(st.sampled_from(i16))
+    k = draw(st.sampled_from([None, "0x10", "0x8", "-0x8", "0x1a", "0x100"]))
+
+    def spell(r):
+        return r if draw(st.booleans()) else r[1:]
+
+    fields = {"main_reg": spell(a), "register_multiplier": spell(b)}
+    if k is not None:
+        fields["constant_offset"] = k if draw(st.booleans()) else (k[2:] if not k.startswith("-") else "-" + k[3:])
+    fields = {f: fields[f] for f in draw(st.permutations(list(fields)))}
+    cands = []
+    for _ in range(draw(st.integers(6, 16))):
+        kind = draw(st.sampled_from(["same", "same", "pair-changed", "disp-changed", "disp-dropped", "disp-added", "scaled", "one-component", "register"]))
+        ca, cb, ck, sc = a, b, k, None
+        if kind == "pair-changed":
+            ca, cb = draw(st.sampled_from([(x, y) for x in b16 for y in i16 if (x, y) != (a, b)]))
+        elif kind == "disp-changed":
+            ck = draw(st.sampled_from([x for x in ["0x10", "0x8", "-0x8", "0x1a", "0x100", "0x1"] if x != k]))
+        elif kind == "disp-dropped":
+            ck = None
+        elif kind == "disp-added":
+            ck = ck or "0x4"
+        elif kind == "scaled":
+            sc = draw(st.sampled_from(["1", "2"]))
+        if kind == "register":
+            cands.append([kind, "%ax", "%ax"])
+        elif kind == "one-component":
+            cands.append([kind, f"{ck or ''}({ca})", f"[{ca}+{ck}]" if ck else f"[{ca}]"])
+        elif sc:
+            cands.append([kind, f"{ck or ''}({ca},{cb},{sc})", f"[{ca}+{cb}*{sc}" + (f"+{ck}]" if ck else "]")])
+        else:
+            cands.append([kind, f"{ck or ''}({ca},{cb})", f"[{ca}+{cb}" + (f"+{ck}]" if ck else "]")])
+    return {"route": "rendered", "form": "addr16", "addr32": False, "fields": fields, "pos": draw(st.integers(1, 2)), "cands": [], "cands16": cands}
+
+
 def strategy(tier):
-    return cases()
+    return st.one_of(cases(), cases(), cases(), cases(), cases(), cases(), cases(), addr16_cases())
 
 
 def cand_att(c, addr32):
@@ -158,7 +199,19 @@ def evaluate(case):
     pattern = [{"mov": ([{"$deref": fields}] if pos == 1 else ["%", {"$deref": fields}])}]
     ev.tags = [f"route={case['route']}", f"pos={pos}", "fields=" + "".join(k[0] if k != "constant_offset" else "k" for k in sorted(fields))]
     ev.tags += sorted({f"cand={c['kind']}" for c in case["cands"]})
-    if case["route"] == "rendered":
+    if case.get("form") == "addr16":
+        ev.tags = ["route=rendered", "form=addr16", f"pos={pos}"] + sorted({f"cand16={c[0]}" for c in case["cands16"]})
+        lines = list(HEADER)
+        NV = []
+        a = 0x100
+        for kind, att, norm in case["cands16"]:
+            ops_att = [att, "%ax"] if pos == 1 else ["%ax", att]
+            ops_norm = [norm, "%ax"] if pos == 1 else ["%ax", norm]
+            lines.append(inst_line(format(a, "x"), "mov", ops_att))
+            NV.append((format(a, "x"), "mov", ops_norm))
+            a += 3
+        text = "\n".join(lines) + "\n"
+    elif case["route"] == "rendered":
         lines = list(HEADER)
         NV = []
         a = 0x401000
@@ -196,6 +249,9 @@ def evaluate(case):
         ev.tags.append("no-operand-has-these-components")
     # non-trivial sub-cases: same shape and equal / one component apart
     keys = []
+    for c16 in case.get("cands16", []):
+        if c16[0] in ("same", "pair-changed", "disp-changed"):
+            keys.append((sorted((k, str(v)) for k, v in fields.items()), c16[0], c16[1]))
     for c in case["cands"]:
         if c["kind"] in ("same", "base-changed", "index-changed", "scale-changed", "disp-changed"):
             keys.append((sorted((k, str(v)) for k, v in fields.items()), c["kind"], tuple(cand_att(c, addr32))))
